@@ -8,21 +8,89 @@ import (
 
 // AsyncEventBroker maintains a list of listeners interested in a specific type
 // of event.  Events are sent in parallel to all listeners, and no result is
-// returned.
+// returned.  Each listener receives its events one at a time, in the order they
+// were emitted.
 type AsyncEventBroker[E any] struct {
 	sync.RWMutex
 	listenerNames []string  // Ordered listener names.
 	listenerFuncs []func(E) // Ordered listener functions.
+
+	seq     *sequencer // Serializes calls per listener name; may be shared between brokers.
+	seqOnce sync.Once  // Guards lazy creation of seq for brokers not created by NewHost.
 }
 
-// Emit sends the provided event to each registered listener in parallel.
+// Emit queues the provided event for each registered listener and returns.  Listeners run in
+// parallel with each other and with the caller, but a listener is not called for the next event
+// until its previous call has returned.
 func (eb *AsyncEventBroker[E]) Emit(event *E) {
 	eb.RLock()
 	defer eb.RUnlock()
 
-	for _, l := range eb.listenerFuncs {
+	eb.seqOnce.Do(func() {
+		if eb.seq == nil {
+			eb.seq = newSequencer()
+		}
+	})
+	for i, l := range eb.listenerFuncs {
 		// Events are copied to minimize the risk of mutation.
-		go l(*event)
+		l, ev := l, *event
+		eb.seq.lane(eb.listenerNames[i]).push(func() { l(ev) })
+	}
+}
+
+// sequencer runs the queued calls of each named listener in order, one at a time.  Brokers that
+// share a sequencer (NewHost shares one between the after-events) keep a listener registered
+// under one name on several of them from being re-entered, and preserve the order of emission
+// across those brokers.
+type sequencer struct {
+	mu    sync.Mutex
+	lanes map[string]*lane
+}
+
+type lane struct {
+	mu      sync.Mutex
+	queue   []func()
+	running bool
+}
+
+func newSequencer() *sequencer {
+	return &sequencer{lanes: make(map[string]*lane)}
+}
+
+func (s *sequencer) lane(name string) *lane {
+	s.mu.Lock()
+	defer s.mu.Unlock()
+	l := s.lanes[name]
+	if l == nil {
+		l = &lane{}
+		s.lanes[name] = l
+	}
+	return l
+}
+
+// push appends a call to the lane, starting a goroutine to drain it if none is running.
+func (l *lane) push(f func()) {
+	l.mu.Lock()
+	defer l.mu.Unlock()
+	l.queue = append(l.queue, f)
+	if !l.running {
+		l.running = true
+		go l.drain()
+	}
+}
+
+func (l *lane) drain() {
+	for {
+		l.mu.Lock()
+		if len(l.queue) == 0 {
+			l.running = false
+			l.mu.Unlock()
+			return
+		}
+		f := l.queue[0]
+		l.queue = l.queue[1:]
+		l.mu.Unlock()
+		f()
 	}
 }
 
